@@ -48,6 +48,14 @@ type closeRow struct {
 	file, fn, ch, guard string
 }
 
+// acquisition of a lock inside a function, with the locks syntactically held at that point
+type acqRow struct {
+	fn    string
+	lock  string
+	held  map[string]bool
+	async bool
+}
+
 func typeString(e ast.Expr) string {
 	switch x := e.(type) {
 	case *ast.StarExpr:
@@ -92,6 +100,7 @@ type lockAnalysis struct {
 	access   []accessRow
 	calls    []callSite
 	closes   []closeRow
+	acqs     []acqRow
 }
 
 func funcKey(fd *ast.FuncDecl) string {
@@ -369,6 +378,7 @@ func (w *walker) block(stmts []ast.Stmt, held map[string]bool) {
 func (w *walker) stmt(s ast.Stmt, held map[string]bool) {
 	if l, acq, ok := w.lockCall(s); ok {
 		if acq {
+			w.la.acqs = append(w.la.acqs, acqRow{fn: w.fn, lock: l, held: copyHeld(held), async: w.async > 0})
 			held[l] = true
 		} else {
 			delete(held, l)
@@ -738,4 +748,112 @@ func (la *lockAnalysis) table() []tableRow {
 		return a.guard < b.guard
 	})
 	return rows
+}
+
+// lockOrder: every pair (h, l) such that some goroutine may try to acquire l while holding h -- directly, or by calling
+// (synchronously) a function that acquires l, transitively.  Locks are identified per struct type and field.
+func (la *lockAnalysis) lockOrder() [][2]string {
+	eh := la.entryHeld()
+	// locks a function acquires itself or through its synchronous callees
+	acq := map[string]map[string]bool{}
+	for k := range la.funcs {
+		acq[k] = map[string]bool{}
+	}
+	for _, a := range la.acqs {
+		acq[a.fn][a.lock] = true
+	}
+	for changed := true; changed; {
+		changed = false
+		for _, c := range la.calls {
+			if c.async || acq[c.callee] == nil {
+				continue
+			}
+			for l := range acq[c.callee] {
+				if !acq[c.caller][l] {
+					acq[c.caller][l] = true
+					changed = true
+				}
+			}
+		}
+	}
+	set := map[[2]string]bool{}
+	for _, a := range la.acqs {
+		held := copyHeld(a.held)
+		if !a.async {
+			for l := range eh[a.fn] {
+				held[l] = true
+			}
+		}
+		for h := range held {
+			set[[2]string{h, a.lock}] = true
+		}
+	}
+	for _, c := range la.calls {
+		if c.async || acq[c.callee] == nil {
+			continue
+		}
+		held := copyHeld(c.held)
+		for l := range eh[c.caller] {
+			held[l] = true
+		}
+		for h := range held {
+			for l := range acq[c.callee] {
+				// the callee entered with h held does not re-acquire it (entry-held locks are its caller's)
+				if h == l && eh[c.callee][l] {
+					continue
+				}
+				set[[2]string{h, l}] = true
+			}
+		}
+	}
+	var out [][2]string
+	for e := range set {
+		out = append(out, e)
+	}
+	sort.Slice(out, func(i, j int) bool {
+		if out[i][0] != out[j][0] {
+			return out[i][0] < out[j][0]
+		}
+		return out[i][1] < out[j][1]
+	})
+	return out
+}
+
+// lockRanks: a topological numbering of the locks compatible with the edges (the certificate Coq checks), or nil when the
+// edges have a cycle.
+func lockRanks(edges [][2]string, locks []string) map[string]int {
+	indeg := map[string]int{}
+	for _, l := range locks {
+		indeg[l] = 0
+	}
+	for _, e := range edges {
+		if _, ok := indeg[e[0]]; !ok {
+			indeg[e[0]] = 0
+		}
+		indeg[e[1]]++
+	}
+	rank := map[string]int{}
+	for n := 0; len(rank) < len(indeg); n++ {
+		var ready []string
+		for l, d := range indeg {
+			if _, done := rank[l]; !done && d == 0 {
+				ready = append(ready, l)
+			}
+		}
+		if len(ready) == 0 {
+			return nil // cycle
+		}
+		sort.Strings(ready)
+		for _, l := range ready {
+			rank[l] = n
+		}
+		for _, e := range edges {
+			if _, done := rank[e[0]]; done {
+				if r, ok := rank[e[0]]; ok && r == n {
+					indeg[e[1]]--
+				}
+			}
+		}
+	}
+	return rank
 }
